@@ -516,6 +516,13 @@ def harness_invariants(ev):
                 pend = set()
             elif e["op"] in ("rollback", "close", "stop"):
                 pend = set()
+    # a delivered cancellation ends the task as `cancelled`, an expired asyncio.timeout as TimeoutError - nothing else
+    mode = ev[0].get("mode") if ev and ev[0]["e"] == "new" else None
+    ncancel = sum(1 for e in ev[:cut] if e["e"] == "cancel" and e["t"] == "main")
+    how = next((e["how"] for e in ev if e["e"] == "ended"), None)
+    want = ("done",) if not ncancel else (("timeout",) if mode == "timeout" else ("cancelled",))
+    if how not in want:
+        bad.append("task ended as %r, expected %s" % (how, "/".join(want)))
     if not set(se["rows"]) <= committed | pend:
         bad.append("rows %r visible that no commit published" % (se["rows"],))
     return bad
